@@ -6,6 +6,7 @@ MCSlopes2 == {0, 1, 2}
 MCIcpts == {0, 2}
 
 ASSUME SiteOK
+ASSUME HandedOK
 \* the reading of BepViaReaction in the reverse direction is the computed one
 ASSUME RevViaHolds = {"delta_H", "rev_delta_H"}
 ASSUME \A d \in Descriptors : ViaDemanded(d, "rev") <=> d \in RevViaHolds
@@ -16,11 +17,15 @@ SlopeCases == {[desc |-> d, dir |-> dir, a2 |-> a, adj2 |-> AdjSlope2(d, dir, a)
                 specified |-> SlopeSpecified(d, dir)]
                  : d \in Descriptors, dir \in Dirs, a \in Slopes2}
 \* pw is shifted by 10: JSON integers of TLC's serialiser are unsigned-friendly only
+HandedCases == {[ads |-> c.ads, method |-> c.method, ea |-> c.ea, a |-> c.a, stick |-> c.stick,
+                 beta |-> c.beta, mw |-> c.mw, easrc |-> EaSource(c), asrc |-> ASource(c),
+                 bsrc |-> BetaSource(c)] : c \in HandedCfg}
 SerSite(cs) == [rs |-> cs.rs, n |-> cs.n, sites |-> cs.sites, gas |-> cs.gas, pw |-> cs.pw + 10]
 EmitCases == IF "OUT_FILE" \in DOMAIN IOEnv
              THEN JsonSerialize(IOEnv.OUT_FILE,
                     [clamp |-> SetToSeq(ClampCases),
                      slope |-> SetToSeq(SlopeCases),
+                     handed |-> SetToSeq(HandedCases),
                      site  |-> [i \in 1..Cardinality(SiteCases) |-> SerSite(SetToSeq(SiteCases)[i])]])
              ELSE TRUE
 ASSUME EmitCases
